@@ -2,6 +2,8 @@
 package verif_c02_test
 
 import (
+	"encoding/binary"
+	"os"
 	"sort"
 	"context"
 	"fmt"
@@ -37,6 +39,23 @@ func sameContent(a, b content) bool {
 		}
 	}
 	return true
+}
+
+// dumpIndex decodes a channel's persisted index.domain (26-byte pointers) for messages.
+func dumpIndex(fs xfs.FS, key uint32) string {
+	f, err := fs.Open(fmt.Sprintf("%d/index.domain", key), os.O_RDONLY)
+	if err != nil {
+		return "(no index.domain)"
+	}
+	defer f.Close()
+	st, _ := f.Stat()
+	buf := make([]byte, st.Size())
+	_, _ = f.ReadAt(buf, 0)
+	var sb strings.Builder
+	for o := 0; o+26 <= len(buf); o += 26 {
+		fmt.Fprintf(&sb, "[%d,%d)f%d+%d/%d ", binary.LittleEndian.Uint64(buf[o:]), binary.LittleEndian.Uint64(buf[o+8:]), binary.LittleEndian.Uint16(buf[o+16:]), binary.LittleEndian.Uint32(buf[o+18:]), binary.LittleEndian.Uint32(buf[o+22:]))
+	}
+	return sb.String()
 }
 
 func sideSnapshot(st *cx.State) map[uint32]cx.SideChan {
@@ -114,6 +133,22 @@ func execute(sc cx.Script, rep *kit.Report) error {
 	autoCommit := map[int]bool{}
 	persistAlways := map[int]bool{}
 	wchans := map[int][]uint32{}
+	// intervalOpen[s][ch]: after s completed ops an auto-committing writer with a persistence
+	// interval (neither always-persist nor explicit commits) is open on ch
+	var intervalOpen []map[uint32]bool
+	intervalW := map[int]bool{}
+	openW := map[int]bool{}
+	snapInterval := func() map[uint32]bool {
+		m := map[uint32]bool{}
+		for w := range openW {
+			if intervalW[w] {
+				for _, k := range wchans[w] {
+					m[k] = true
+				}
+			}
+		}
+		return m
+	}
 	cur := map[uint32]int{}
 	setupEnd := -1
 	lrep := &kit.Report{}
@@ -126,6 +161,7 @@ func execute(sc cx.Script, rep *kit.Report) error {
 					setupEnd = j.len()
 					snaps = append(snaps, snapshot(st.M))
 					sideSnaps = append(sideSnaps, sideSnapshot(st))
+					intervalOpen = append(intervalOpen, snapInterval())
 					d := map[uint32]int{}
 					for _, k := range st.M.Order {
 						d[k] = 0
@@ -135,6 +171,8 @@ func execute(sc cx.Script, rep *kit.Report) error {
 				marks[i].start = j.len()
 				if op.Kind == "open" {
 					autoCommit[op.W], persistAlways[op.W], wchans[op.W] = op.AutoCommit, op.PersistAlways, op.Channels
+					intervalW[op.W] = op.AutoCommit && !op.PersistAlways
+					openW[op.W] = true
 				}
 				return
 			}
@@ -142,6 +180,10 @@ func execute(sc cx.Script, rep *kit.Report) error {
 			s := len(snaps)
 			snaps = append(snaps, snapshot(st.M))
 			sideSnaps = append(sideSnaps, sideSnapshot(st))
+			if op.Kind == "close" {
+				delete(openW, op.W)
+			}
+			intervalOpen = append(intervalOpen, snapInterval())
 			switch op.Kind {
 			case "write":
 				if autoCommit[op.W] && persistAlways[op.W] {
@@ -211,7 +253,7 @@ func execute(sc cx.Script, rep *kit.Report) error {
 			}
 		}
 		for _, torn := range variants {
-			if v := checkImage(ctx, sc, specs, entries, k, torn, setupEnd, marks, snaps, durable, sideSnaps, rep); v != nil {
+			if v := checkImage(ctx, sc, specs, entries, k, torn, setupEnd, marks, snaps, durable, sideSnaps, intervalOpen, rep); v != nil {
 				if kv, ok := v.(*kit.Violation); ok && rep.Known(kv.Sig) {
 					rep.Add("images_excluded_known_finding", 1)
 					continue
@@ -246,7 +288,7 @@ func execute(sc cx.Script, rep *kit.Report) error {
 }
 
 func checkImage(ctx context.Context, sc cx.Script, specs []tsm.ChannelSpec, entries []entry, k, torn, setupEnd int,
-	marks []mark, snaps []map[uint32]content, durable []map[uint32]int, sideSnaps []map[uint32]cx.SideChan, rep *kit.Report) error {
+	marks []mark, snaps []map[uint32]content, durable []map[uint32]int, sideSnaps []map[uint32]cx.SideChan, intervalOpen []map[uint32]bool, rep *kit.Report) error {
 	fs, rerr := rebuild(entries, k, torn)
 	if rerr != nil {
 		return kit.Fail("harness-rebuild", "rebuilding image %d failed: %v", k, rerr)
@@ -296,6 +338,13 @@ func checkImage(ctx context.Context, sc cx.Script, specs []tsm.ChannelSpec, entr
 		}
 		got, gerr := cx.ReadChannel(ctx, db, spec, 0, inf)
 		if gerr != nil {
+			// An interval-persisting writer decides per channel, from that channel's own clock,
+			// whether a commit persists its index: a data channel can persist a commit its index
+			// channel did not. The signature names that situation (listed finding).
+			if !spec.IsIndex && strings.Contains(gerr.Error(), "is not continuous in the index") && k >= setupEnd &&
+				(intervalOpen[completed][spec.Key] || intervalOpen[min(completed+1, len(intervalOpen)-1)][spec.Key]) {
+				return kit.Fail("read-error:data-persisted-ahead-of-index:interval-persist:"+window, "%s: reading ch%d failed: %v (an auto-committing writer with a persistence interval is open on the channel: its data channel persisted a commit that its index channel has not persisted). Persisted pointers in the image: ch%d %s; its index ch%d %s", where, spec.Key, gerr, spec.Key, dumpIndex(fs, spec.Key), spec.Index, dumpIndex(fs, spec.Index))
+			}
 			return kit.Fail("read-error:"+window, "%s: reading ch%d failed: %v", where, spec.Key, gerr)
 		}
 		if k < setupEnd {
